@@ -20,6 +20,15 @@ Theorem c12_torn_state_files_ignored :
   forall (S : Type) (d : list (sfile S)), recover_state d = recover_state (filter s_ok d).
 Proof. exact recover_state_ignores_torn. Qed.
 
+(* 1b. A state file is taken all-or-nothing.  [s_ok f] = manager.New accepts f (it parses AND passes the validation of
+       tags, references, marks and endpoints).  A rejected file - torn, or parsable but invalid, older or NEWER than the
+       others, carrying whatever settings - contributes nothing: tags, config, webhooks and pcap list all come from the
+       file that is selected. *)
+Theorem c12_rejected_state_file_contributes_nothing :
+  forall (S : Type) (d1 d2 : list (sfile S)) (f : sfile S),
+    s_ok f = false -> recover_state (d1 ++ f :: d2) = recover_state (d1 ++ d2).
+Proof. intros S. exact rejected_state_file_contributes_nothing. Qed.
+
 (* 2. STATE (tags, settings, endpoints): for EVERY sequence of state saves ss (save k = create file k,
       write+close it, remove file k-1) and EVERY crash point (any prefix of the step list), a restart
       loads the newest save whose file was closed.  A save whose steps are all in the prefix (= it was
